@@ -41,6 +41,7 @@ fn main() {
             }
             0
         }
+        "survey" => survey(&args),
         "list" => {
             for p in props::all() {
                 println!("{}", p.id());
@@ -502,7 +503,8 @@ fn master(args: &[String]) -> i32 {
         });
         std::fs::write(&path, serde_json::to_string_pretty(&rec).unwrap()).expect("write replay");
         lines.push(format!("VIOLATION property={id} replay={path}"));
-        eprintln!("  [{}] {}", v["category"].as_str().unwrap_or(""), v["detail"].as_str().unwrap_or(""));
+        let d: String = v["detail"].as_str().unwrap_or("").chars().take(400).collect();
+        eprintln!("  [{}] {}", v["category"].as_str().unwrap_or(""), d);
     }
 
     // evidence
@@ -573,4 +575,44 @@ fn master(args: &[String]) -> i32 {
     } else {
         0
     }
+}
+
+
+/// Debug aid: run the exhaustive streams of a property in-process and tally *all* failures by
+/// category (known findings are not filtered), with a few examples each.
+fn survey(args: &[String]) -> i32 {
+    let prop = prop_or_die(&args[2]);
+    let tier = Tier::parse(&arg_after(args, "--tier").unwrap_or_default());
+    let only = arg_after(args, "--stream");
+    install_quiet_panic_hook();
+    let mut tally: BTreeMap<String, (u64, Vec<String>)> = BTreeMap::new();
+    for s in prop.streams(tier) {
+        if let Some(o) = &only {
+            if &s.name != o {
+                continue;
+            }
+        } else if !s.exhaustive {
+            continue;
+        }
+        for b in 0..s.blocks {
+            let mut ctx = Ctx::new(prop.id(), tier, 0, &s.name, b, Known::default());
+            ctx.max_failures = usize::MAX;
+            ctx.per_category = usize::MAX;
+            prop.run_block(&mut ctx, &s.name, b);
+            for f in ctx.failures {
+                let e = tally.entry(f.category.clone()).or_insert((0, vec![]));
+                e.0 += 1;
+                if e.1.len() < 12 {
+                    e.1.push(format!("{} :: {}", f.case, f.detail.chars().take(200).collect::<String>()));
+                }
+            }
+        }
+    }
+    for (c, (n, ex)) in tally {
+        println!("== {c}: {n}");
+        for e in ex {
+            println!("   {e}");
+        }
+    }
+    0
 }
